@@ -119,6 +119,10 @@ def replay_snapshot(obligation=None, model=None, meta=None):
             ss.TDS.run()
             saved = {k: np.array(getattr(ss.dae, k)) for k in ('x', 'y', 'f', 'g', 't', 'Tf')}
             jac = dense(ss.dae)
+            ss.dae.ts.idx_ptr = len(ss.dae.ts._ys) // 2          # as if half of the rows had been off-loaded to the output file already
+            ss.dae._write_append = True
+            series = {'t': np.array(ss.dae.ts.t), 'xy': np.array(ss.dae.ts.xy)}
+            book = {'idx_ptr': ss.dae.ts.idx_ptr, '_write_append': True}
             buf = io.BytesIO()
             save_ss(buf, ss)
             buf.seek(0)
@@ -131,6 +135,16 @@ def replay_snapshot(obligation=None, model=None, meta=None):
                     d = np.max(np.abs(v - w)) if v.shape == w.shape else 'shape'
                     return {'confirmed': True, 'inputs': where, 'observed': 'dae.%s of %s differs after save_ss / load_ss (max difference %r)' % (k, who, d),
                             'native_cmd': 'save_ss(buffer, system); load_ss(buffer)'}
+        # the stored series and its bookkeeping (what has been written to the output file so far) travel with the snapshot
+        for who, obj in (('the loaded system', s2), ('the saved system', ss)):
+            for label, a_, b_ in (('time stamps of the stored series', series['t'], np.array(obj.dae.ts.t)), ('stored series', series['xy'], np.array(obj.dae.ts.xy))):
+                if a_.shape != b_.shape or not np.array_equal(a_, b_):
+                    return {'confirmed': True, 'inputs': where, 'observed': '%s of %s differ after save_ss / load_ss' % (label, who), 'native_cmd': 'save_ss(buffer, system); load_ss(buffer)'}
+            for attr, want in book.items():
+                got = getattr(obj.dae.ts, attr) if attr != '_write_append' else obj.dae._write_append
+                if got != want:
+                    return {'confirmed': True, 'inputs': where, 'observed': 'dae%s.%s of %s is %r after save_ss / load_ss, it was %r (rows already written to the output file would be written again)' % (
+                        '' if attr == '_write_append' else '.ts', attr, who, got, want), 'native_cmd': 'save_ss(buffer, system); load_ss(buffer)'}
         for who, obj in (('the loaded system', s2), ('the saved system', ss)):
             try:
                 j2 = dense(obj.dae)
